@@ -529,6 +529,12 @@ func (x *Exec) buildItem(spec string) interface{} {
 		return &c
 	case "zerocell":
 		return tabular.Cell{}
+	case "cellp": // a Cell item that carries properties of its own: they belong to it, not to the cell made from it
+		c := tabular.NewCell(x.items[idOf(parts[1])])
+		for _, k := range []string{"u1", "u2", "u3", "align", "skip"} {
+			c.SetProperty(parseKey(k), parseVal("u7"))
+		}
+		return c
 	}
 	panic("bad item spec " + spec)
 }
@@ -1147,6 +1153,17 @@ func (x *Exec) do1(line string) (res string, leanLine string) {
 		d := parseDecor(toks[1])
 		d.Populate()
 		return showDecor(d), line
+	case "scribblerows":
+		// what AllRows returns is the caller's to overwrite, reorder and extend
+		rr := x.tables[idOf(toks[1])].AllRows()
+		for i, j := 0, len(rr)-1; i < j; i, j = i+1, j-1 {
+			rr[i], rr[j] = rr[j], rr[i]
+		}
+		if len(rr) > 0 {
+			rr[0] = nil
+		}
+		_ = append(rr, tabular.NewRow())
+		return "ok", line
 	case "lenobs":
 		s0 := unhx(toks[1])
 		var ls []string
